@@ -162,11 +162,11 @@ pub fn find_naf(num: &[u64]) -> Vec<i8> {
             .zip(ark_std::iter::once(z).chain(ark_std::iter::repeat(0)))
             .fold(0, |borrow, (a, b)| sbb(a, b, borrow));
     };
-    // Add a value `z` without carry propagation
+    // Add a value `z`, returning the carry out of the most significant limb
     let add_nocarry = |num: &mut [u64], z: u64| {
         num.iter_mut()
             .zip(ark_std::iter::once(z).chain(ark_std::iter::repeat(0)))
-            .fold(0, |carry, (a, b)| adc(a, b, carry));
+            .fold(0, |carry, (a, b)| adc(a, b, carry))
     };
     // Perform an in-place division of the number by 2
     let div2 = |num: &mut [u64]| {
@@ -180,12 +180,13 @@ pub fn find_naf(num: &[u64]) -> Vec<i8> {
     // Main loop for NAF computation
     while is_non_zero(&num) {
         // Determine the current digit of the NAF representation
+        let mut carry = 0;
         let z = if is_odd(&num) {
             let z = 2 - (num[0] % 4) as i8;
             if z >= 0 {
                 sub_noborrow(&mut num, z as u64);
             } else {
-                add_nocarry(&mut num, (-z) as u64);
+                carry = add_nocarry(&mut num, (-z) as u64);
             }
             z
         } else {
@@ -196,6 +197,12 @@ pub fn find_naf(num: &[u64]) -> Vec<i8> {
         res.push(z);
         // Divide the number by 2 for the next iteration
         div2(&mut num);
+        // A carry out of the top limb becomes the top bit after halving.
+        if carry != 0 {
+            if let Some(top) = num.last_mut() {
+                *top |= 1 << 63;
+            }
+        }
     }
 
     res
@@ -217,7 +224,7 @@ pub fn find_relaxed_naf(num: &[u64]) -> Vec<i8> {
     let mut res = find_naf(num);
 
     let len = res.len();
-    if res[len - 2] == 0 && res[len - 3] == -1 {
+    if len >= 3 && res[len - 2] == 0 && res[len - 3] == -1 {
         res[len - 3] = 1;
         res[len - 2] = 1;
         res.resize(len - 1, 0);
